@@ -15,7 +15,8 @@ func init() {
 				"(1) acquire: every non-nil entry returned by the registration callback after a successful inotify_add_watch carries exactly that descriptor (it is the existing entry found under it, a fresh entry built with it, or an entry re-pointed to it), and the caller stores it in both tables; " +
 				"(2) release: every delete from the wd table is either in a 'kernel says the watch is gone' context (every conjunct of its reaching condition has IN_IGNORED, IN_UNMOUNT or IN_DELETE_SELF of the record being handled) or is matched by inotify_rm_watch on the same descriptor - the same access path in the same calling context, or the descriptor is put into the slice the function returns and the caller calls inotify_rm_watch on each element; conversely every inotify_rm_watch is preceded by the removal of that descriptor's entry; " +
 				"(3) the tables stay mutually inverse (C04.3 pairing) and a store to an existing entry's path moves its path-table key; " +
-				"(4) both syscalls are issued on the Watcher's own descriptor field. " +
+				"(4) both syscalls are issued on the Watcher's own descriptor field; " +
+				"(5) when the kernel reports a watch gone (IN_IGNORED, IN_UNMOUNT, IN_DELETE_SELF) both table entries of that watch are deleted on every path (no listed path without a kernel watch). " +
 				"Not decided: the kernel's mark list itself; quiescence; early return of the release loop on a syscall error (exempt).",
 			Rule:        "one obligation per callback return, per wd-table delete and calling root, per inotify_rm_watch call, per syscall descriptor operand; non-trivial = site reachable",
 			Assumptions: []string{"go/types + go/ssa", "inotify(7): the kernel drops a watch itself on IN_IGNORED/IN_DELETE_SELF/IN_UNMOUNT", "production folding (E-F)"},
@@ -39,6 +40,12 @@ func runC12(p *Program, e *Engine, r *Result, tier string) {
 	roots := []*ssa.Function{ro.API["AddWith"], ro.API["Remove"]}
 	roots = append(roots, ro.Readers...)
 	c12Acquire(a, tf, ro.API["AddWith"])
+	// (5) no listed path without a kernel watch: kernel-says-gone records remove both entries (shared with C09.1)
+	if df := decodeFacts(a); df != nil {
+		if w, _, hctx, entry, watchLit, maskSubj := handlerFrame(a, df, tf); hctx != nil {
+			c09Cleanup(a, tf, hctx, entry, *watchLit, watchLit.A.Subj, maskSubj, collectTableOps(a, tf, w), "C12.5")
+		}
+	}
 	for _, root := range roots {
 		c12Release(a, tf, root)
 		pairTables(a, tf, root, "C12.3")
